@@ -24,6 +24,7 @@ typedef void (*vf_fnptr)(void);
 typedef long vf_str;        /* opaque string id: equality only */
 #define VF_STR_EMPTY ((vf_str)0)
 struct vf_fn { vf_fnptr fn; void* env; };
+struct vf_lock { _Bool owns; }; /* std::unique_lock / lock_guard: ownership flag only, locking is not modelled */
 struct vf_mt19937 { unsigned long opaque_state; }; /* std::mt19937: only its operator() (assumed callee) is used */
 extern int vf_exc;          /* 0 = no exception in flight; VF_EXC_* otherwise (exception model) */
 #define VF_EXC_ABORT 1
